@@ -121,7 +121,7 @@ HARNESS(h_hexforms)
 {   // raw / lower hex / upper hex forms and the helper functions serialise the same final state
     for (unsigned i = 0; i < NMAX; ++i) msg[i] = nondet_u8();
     const unsigned n = NMAX;
-    static const char LC[17] = "0123456789abcdef", UC[17] = "0123456789ABCDEF";
+    auto hexval = [](char c, bool upper) -> int { if (c >= '0' && c <= '9') return c - '0'; if (upper ? (c >= 'A' && c <= 'F') : (c >= 'a' && c <= 'f')) return c - (upper ? 'A' : 'a') + 10; return -1; };
     uint8_t dig[DLEN]; rec_n = 0; { D d(msg, n); d.finalize(dig); } check_run(n, dig);
     unsigned last = rec_n - 1;
     rec_n = 0; std::string raw; { D d(msg, n); raw = d.digest(); }
@@ -129,10 +129,10 @@ HARNESS(h_hexforms)
     CHECK(raw.size() == DLEN, "digest() has the digest length"); check_run(n, (const uint8_t*)raw.data());
     rec_n = 0; std::string lo = HEXFN(msg, n); uint8_t b1[DLEN];
     CHECK(lo.size() == 2 * DLEN, "hex digest length"); bool ok = true;
-    for (unsigned i = 0; i < DLEN; ++i) { int hi_ = -1, lo_ = -1; for (int k = 0; k < 16; ++k) { if (lo[2 * i] == LC[k]) hi_ = k; if (lo[2 * i + 1] == LC[k]) lo_ = k; } if (hi_ < 0 || lo_ < 0) ok = false; b1[i] = (uint8_t)(hi_ * 16 + lo_); }
+    for (unsigned i = 0; i < DLEN; ++i) { int hi_ = hexval(lo[2 * i], false), lo_ = hexval(lo[2 * i + 1], false); if (hi_ < 0 || lo_ < 0) ok = false; b1[i] = (uint8_t)(hi_ * 16 + lo_); }
     CHECK(ok, "lower-case hex digest uses 0-9a-f"); check_run(n, b1);
     rec_n = 0; std::string up = HEXUCFN(msg, n); ok = true;
-    for (unsigned i = 0; i < DLEN; ++i) { int hi_ = -1, lo_ = -1; for (int k = 0; k < 16; ++k) { if (up[2 * i] == UC[k]) hi_ = k; if (up[2 * i + 1] == UC[k]) lo_ = k; } if (hi_ < 0 || lo_ < 0) ok = false; b1[i] = (uint8_t)(hi_ * 16 + lo_); }
+    for (unsigned i = 0; i < DLEN; ++i) { int hi_ = hexval(up[2 * i], true), lo_ = hexval(up[2 * i + 1], true); if (hi_ < 0 || lo_ < 0) ok = false; b1[i] = (uint8_t)(hi_ * 16 + lo_); }
     CHECK(ok && up.size() == 2 * DLEN, "upper-case hex digest uses 0-9A-F"); check_run(n, b1);
     (void)last;
     REACH("hex forms checked");
